@@ -46,6 +46,8 @@ enum Status {
     NotStarted,
     Running,
     Parked,
+    /// blocked in the kernel on a lock without a hook that a parked actor holds (opt-in, see `stalls`)
+    Stalled,
     Finished,
     Panicked,
 }
@@ -83,6 +85,13 @@ pub struct Sched {
     detached: Vec<AtomicBool>,
     /// record hooks outside the filter as "@name" marks in the step list (no scheduling point)
     marks: bool,
+    /// opt-in ("@stalls" in the filter; only for harnesses whose actors never wait for anything but
+    /// locks): an actor that sleeps in the kernel without reaching a hook is blocked on a lock the
+    /// code under test takes without a hook; the controller then lets another actor run instead of
+    /// giving up, and the stalled one parks at its next hook
+    stalls: bool,
+    tids: Vec<std::sync::atomic::AtomicI32>,
+    pub stall_count: std::sync::atomic::AtomicU64,
     n: usize,
 }
 
@@ -129,8 +138,12 @@ fn current() -> Option<(Arc<Sched>, usize)> {
 impl Sched {
     fn new(n: usize, span_yields: bool, filter: Option<Vec<&'static str>>) -> Self {
         let marks = filter.as_ref().map(|f| f.contains(&"@marks")).unwrap_or(false);
+        let stalls = filter.as_ref().map(|f| f.contains(&"@stalls")).unwrap_or(false);
         Self {
             marks,
+            stalls,
+            tids: (0..n).map(|_| std::sync::atomic::AtomicI32::new(0)).collect(),
+            stall_count: std::sync::atomic::AtomicU64::new(0),
             detached: (0..n).map(|_| AtomicBool::new(false)).collect(),
             filter,
             others_steps: (0..n).map(|_| std::sync::atomic::AtomicU64::new(0)).collect(),
@@ -542,6 +555,8 @@ pub struct Exec {
     pub deadlock: bool,
     pub panicked: Vec<usize>,
     pub preemptions: usize,
+    /// times an actor was found blocked on a lock without a hook (opt-in stall handling)
+    pub stalls: u64,
 }
 
 impl Exec {
@@ -569,6 +584,7 @@ pub fn run_once(actors: Vec<ActorBody>, prefix: &[usize], span_yields: bool, fil
             .name(format!("actor-{id}"))
             .spawn(move || {
                 CURRENT.with(|c| *c.borrow_mut() = Some((s.clone(), id)));
+                s.tids[id].store(unsafe { libc::gettid() }, Ordering::SeqCst);
                 let ctx = ActorCtx { sched: s.clone(), id };
                 let res = catch_unwind(AssertUnwindSafe(|| {
                     s.yield_at(id, "start", None);
@@ -602,18 +618,62 @@ pub fn run_once(actors: Vec<ActorBody>, prefix: &[usize], span_yields: bool, fil
         loop {
             // wait until nobody is running
             let deadline = Instant::now() + Duration::from_secs(60);
+            let mut sleeping_samples = 0u32;
             while g.token.is_some() || g.actors.iter().any(|a| a.status == Status::NotStarted || a.status == Status::Running) {
-                let (ng, to) = sched.cv.wait_timeout(g, Duration::from_millis(200)).unwrap();
+                let (ng, to) = sched.cv.wait_timeout(g, Duration::from_millis(if sched.stalls { 40 } else { 200 })).unwrap();
                 g = ng;
+                if to.timed_out() && sched.stalls {
+                    // the token holder sleeps in the kernel and others are parked: it waits for a lock one of them holds
+                    if let Some(r) = g.token {
+                        let state = std::fs::read_to_string(format!("/proc/self/task/{}/stat", sched.tids[r].load(Ordering::SeqCst)))
+                            .ok()
+                            .and_then(|t| t.rsplit(')').next().map(|x| x.trim().chars().next().unwrap_or('?')))
+                            .unwrap_or('?');
+                        if state == 'S' && g.actors[r].status == Status::Running && g.actors.iter().any(|a| a.status == Status::Parked) {
+                            sleeping_samples += 1;
+                        } else {
+                            sleeping_samples = 0;
+                        }
+                        if sleeping_samples >= 5 {
+                            g.actors[r].status = Status::Stalled;
+                            g.actors[r].at = format!("(blocked after {})", g.actors[r].at);
+                            g.token = None;
+                            sched.stall_count.fetch_add(1, Ordering::SeqCst);
+                            sleeping_samples = 0;
+                            continue;
+                        }
+                    }
+                }
                 if to.timed_out() && Instant::now() > deadline {
                     let at: Vec<(Status, String)> = g.actors.iter().map(|a| (a.status, a.at.clone())).collect();
                     machinery_failure(&format!("scheduler: an actor ran for 60 s without reaching a hook: {at:?}"));
                 }
             }
-            let unfinished: Vec<usize> = (0..n).filter(|&i| g.actors[i].status == Status::Parked).collect();
+            let mut unfinished: Vec<usize> = (0..n).filter(|&i| g.actors[i].status == Status::Parked).collect();
+            if unfinished.is_empty() && g.actors.iter().any(|a| a.status == Status::Stalled) {
+                // whatever a stalled actor waited for is free now: it must reach a hook or finish
+                let until = Instant::now() + Duration::from_secs(5);
+                while g.actors.iter().any(|a| a.status == Status::Stalled) && Instant::now() < until {
+                    let (ng, _) = sched.cv.wait_timeout(g, Duration::from_millis(50)).unwrap();
+                    g = ng;
+                }
+                if g.actors.iter().any(|a| a.status == Status::Stalled) {
+                    deadlock = true;
+                    for (i, a) in g.actors.iter().enumerate() {
+                        if a.status == Status::Stalled {
+                            sched.detached[i].store(true, Ordering::SeqCst);
+                        }
+                    }
+                    g.abort = true;
+                    sched.cv.notify_all();
+                    break;
+                }
+                continue;
+            }
             if unfinished.is_empty() {
                 break;
             }
+            unfinished.sort();
             let mut enabled: Vec<usize> = Vec::new();
             for &i in &unfinished {
                 let ok = match &g.actors[i].pred {
@@ -686,6 +746,7 @@ pub fn run_once(actors: Vec<ActorBody>, prefix: &[usize], span_yields: bool, fil
         deadlock,
         panicked,
         preemptions,
+        stalls: sched.stall_count.load(Ordering::SeqCst),
     }
 }
 
